@@ -24,7 +24,11 @@
 //   - create steps (create_pair_test.go, TestGroupCreateRace): GetOrCreateConsumerGroup of a new or a
 //     stopped group (buildReplica / IsExpire / getReplicaState) interleaved with operations of other
 //     roles at the page steps of the opening; reopen_stress_test.go races it against Sync+GC on real
-//     goroutines.
+//     goroutines;
+//   - parked consumer (parked_test.go, TestGroupParkedConsumer): operations of other roles while the
+//     group's consumer waits inside Consume, then the wake-up (append / Pause / Stop / Close);
+//   - page-store faults (fault_test.go, TestGroupPageFaults): the creation of an index / data / group
+//     meta page file fails once or twice, the caller retries.
 package c06
 
 import (
@@ -162,6 +166,17 @@ type world struct {
 	createRace bool   // the machine also interleaves the (re)opening of a group with operations of other roles
 	freshNow   string // group created from scratch (no meta page) by the current step: it may start below the queue ack
 	ntCreate   bool   // some create step ran a Sync inside the window of a lagging re-opened group (see opCreatePair)
+
+	// parked_test.go / fault_test.go
+	parked   bool // the machine also runs operations of other roles while a consumer is parked inside Consume
+	faults   bool // the machine also lets the creation of page files fail once (the caller retries)
+	ntParked bool // a parked consumer was woken by an append after its group's position was changed by another role
+	ntFault  bool // an append failed in the creation of an index/data page and the retry succeeded
+}
+
+// machineMode selects the extra operation classes of a history (see the tests that set them).
+type machineMode struct {
+	createRace, parked, faults bool
 }
 
 func (w *world) logf(format string, args ...any) {
@@ -891,10 +906,11 @@ func (w *world) catchUpAll(maxBehind int) bool {
 // ---- the state machine -------------------------------------------------------------------------
 
 func runHistory(t *rapid.T, test string, thorough, heavy bool) {
-	runHistoryMode(t, test, thorough, heavy, false)
+	runHistoryMode(t, test, thorough, heavy, machineMode{})
 }
 
-func runHistoryMode(t *rapid.T, test string, thorough, heavy, createRace bool) {
+func runHistoryMode(t *rapid.T, test string, thorough, heavy bool, mode machineMode) {
+	createRace := mode.createRace
 	root, err := os.MkdirTemp("", "c06-")
 	if err != nil {
 		t.Fatalf("harness: %v", err)
@@ -904,7 +920,7 @@ func runHistoryMode(t *rapid.T, test string, thorough, heavy, createRace bool) {
 		appended: -1, qack: -1, prevQAck: -1,
 		msgs: map[int64]msg{}, groups: map[string]*grp{}, classes: map[string]int{},
 		universe: []string{"1", "2", "3", "4"}, // production names groups by node id
-		thorough: thorough, heavy: heavy, createRace: createRace,
+		thorough: thorough, heavy: heavy, createRace: createRace, parked: mode.parked, faults: mode.faults,
 	}
 	defer func() {
 		if w.fq != nil {
@@ -971,6 +987,27 @@ func runHistoryMode(t *rapid.T, test string, thorough, heavy, createRace bool) {
 		actions["stopGroup3"] = step(w.opStopGroup)
 		actions["catchUpAll2"] = step(w.opCatchUpAll)
 	}
+	if mode.parked {
+		// TestGroupParkedConsumer: operations of other roles while a consumer waits inside Consume
+		for _, k := range []string{"parkedConsume", "parkedConsume2", "parkedConsume3", "parkedConsume4", "parkedConsume5"} {
+			actions[k] = step(w.opParkedConsume)
+		}
+		actions["catchUpAll2"] = step(w.opCatchUpAll)
+	}
+	if mode.faults {
+		// TestGroupPageFaults: the creation of an index page / data page / group meta page fails once
+		for _, k := range []string{"faultyAppend", "faultyAppend2", "faultyAppend3", "faultyAppend4"} {
+			actions[k] = step(w.opFaultyAppend)
+		}
+		actions["faultyCreateGroup"] = step(w.opFaultyCreateGroup)
+		actions["faultyCreateGroup2"] = step(w.opFaultyCreateGroup)
+		actions["stopGroup2"] = step(w.opStopGroup)
+		if heavy {
+			actions["faultyBigAppend"] = step(w.opFaultyBigAppend)
+			actions["faultyBigAppend2"] = step(w.opFaultyBigAppend)
+			actions["faultyBigAppend3"] = step(w.opFaultyBigAppend)
+		}
+	}
 	if heavy {
 		delete(actions, "pause") // a paused group pins the queue ack until the next reopen
 		actions["bigAppend"] = step(w.opBigAppend)
@@ -986,7 +1023,11 @@ func runHistoryMode(t *rapid.T, test string, thorough, heavy, createRace bool) {
 	// roll-over machine: the big appends the history did not use, each followed by the groups
 	// catching up at different speeds and a Sync+GC
 	for heavy && w.bigLeft > 0 {
-		w.opBigAppend()
+		if w.faults && rapid.IntRange(0, 3).Draw(t, "leftoverBigAppendUnderFaults") != 0 {
+			w.opFaultyBigAppend() // the creation of the next data page fails once or twice, the producer retries
+		} else {
+			w.opBigAppend()
+		}
 		w.check("after big append")
 		if len(w.openGroups()) == 0 {
 			continue
@@ -1026,13 +1067,19 @@ func runHistoryMode(t *rapid.T, test string, thorough, heavy, createRace bool) {
 		ev.Class(test, c, k)
 	}
 	nonTrivial := (w.ntGC || w.ntReopen) && heavyNT
-	if createRace {
+	switch {
+	case createRace:
 		nonTrivial = w.ntCreate
+	case mode.parked:
+		nonTrivial = w.ntParked
+	case mode.faults && !heavy:
+		nonTrivial = w.ntFault
 	}
 	ev.Case(test, strings.Join(w.ops, ";"), nonTrivial, nil,
 		map[string]any{"history": w.ops, "final": w.modelString(),
 			"gc_removed_page_with_different_acks": w.ntGC, "reopen_with_positions": w.ntReopen, "interleaved_pair": w.ntPair,
-			"sync_inside_reopen_window_of_lagging_group": w.ntCreate})
+			"sync_inside_reopen_window_of_lagging_group": w.ntCreate, "parked_consumer_woken_after_position_change": w.ntParked,
+			"append_failed_at_page_creation_then_retried": w.ntFault})
 }
 
 func (w *world) anyKnownShape() bool {
@@ -1061,7 +1108,7 @@ func TestGroupHistoryRollOver(t *testing.T) {
 	}
 	installPages()
 	defer uninstallPages()
-	rapid.Check(t, func(t *rapid.T) { runHistory(t, "TestGroupHistoryRollOver", true, true) })
+	rapid.Check(t, func(t *rapid.T) { runHistoryMode(t, "TestGroupHistoryRollOver", true, true, machineMode{faults: true}) })
 }
 
 // TestQueueAckBarrier: the read barrier of the underlying queue on its own (no groups): whatever
